@@ -132,9 +132,9 @@ pub fn memchr_op(a: &[&str], dispatched: bool) -> Option<String> {
                 };
                 Some(to_off(r))
             }
-            #[cfg(not(any(memchr_verif_emu_neon, memchr_verif_emu_simd128)))]
+            #[cfg(not(any(memchr_verif_emu_neon, memchr_verif_emu_simd128, memchr_verif_emu_other)))]
             Be::Avx2 => raw_search!(memchr::arch::x86_64::avx2::memchr, n, rev, s, e, new).map(to_off),
-            #[cfg(not(any(memchr_verif_emu_neon, memchr_verif_emu_simd128)))]
+            #[cfg(not(any(memchr_verif_emu_neon, memchr_verif_emu_simd128, memchr_verif_emu_other)))]
             Be::Sse2 => raw_search!(memchr::arch::x86_64::sse2::memchr, n, rev, s, e, new).map(to_off),
             #[cfg(memchr_verif_emu_neon)]
             Be::Neon => raw_search!(memchr::arch::aarch64::neon::memchr, n, rev, s, e, new).map(to_off),
@@ -184,9 +184,9 @@ pub fn count_op(a: &[&str], dispatched: bool) -> Option<String> {
                 Some(memchr::memchr_iter(n1, &p.slice()[soff..eoff]).count())
             }
             Be::Swar => Some(unsafe { memchr::arch::all::memchr::One::new(n1).count_raw(s, e) }),
-            #[cfg(not(any(memchr_verif_emu_neon, memchr_verif_emu_simd128)))]
+            #[cfg(not(any(memchr_verif_emu_neon, memchr_verif_emu_simd128, memchr_verif_emu_other)))]
             Be::Avx2 => memchr::arch::x86_64::avx2::memchr::One::new(n1).map(|f| unsafe { f.count_raw(s, e) }),
-            #[cfg(not(any(memchr_verif_emu_neon, memchr_verif_emu_simd128)))]
+            #[cfg(not(any(memchr_verif_emu_neon, memchr_verif_emu_simd128, memchr_verif_emu_other)))]
             Be::Sse2 => memchr::arch::x86_64::sse2::memchr::One::new(n1).map(|f| unsafe { f.count_raw(s, e) }),
             #[cfg(memchr_verif_emu_neon)]
             Be::Neon => memchr::arch::aarch64::neon::memchr::One::new(n1).map(|f| unsafe { f.count_raw(s, e) }),
@@ -315,12 +315,12 @@ pub fn iter_op(a: &[&str], mode: u8) -> Option<String> {
                     via!(memchr::arch::all::memchr, Some);
                     Some(())
                 }
-                #[cfg(not(any(memchr_verif_emu_neon, memchr_verif_emu_simd128)))]
+                #[cfg(not(any(memchr_verif_emu_neon, memchr_verif_emu_simd128, memchr_verif_emu_other)))]
                 Be::Avx2 => {
                     via!(memchr::arch::x86_64::avx2::memchr, |x| x);
                     Some(())
                 }
-                #[cfg(not(any(memchr_verif_emu_neon, memchr_verif_emu_simd128)))]
+                #[cfg(not(any(memchr_verif_emu_neon, memchr_verif_emu_simd128, memchr_verif_emu_other)))]
                 Be::Sse2 => {
                     via!(memchr::arch::x86_64::sse2::memchr, |x| x);
                     Some(())
